@@ -296,6 +296,10 @@ class Interp:
                 raise Unknown(f'store {ast.unparse(tgt)}: {type(ex).__name__}: {ex}')
         elif isinstance(tgt, ast.Attribute):
             base = ev(tgt.value, env)
+            import argparse as _ap
+            if isinstance(base, _ap.Namespace):
+                setattr(base, tgt.attr, val)
+                return
             if tgt.attr not in getattr(type(base), '_model', ()):
                 raise Unknown(f'attribute store {ast.unparse(tgt)} on a non-model object')
             setattr(base, tgt.attr, val)
